@@ -150,6 +150,8 @@ Step_C02 ==
         /\ Settled = {} /\ Issued = {}
         /\ bal'[TAX] = bal[TAX]
         /\ (~Ok(e, "Withdraw") => bal'[REQ] = bal[REQ] /\ earned' = earned /\ oearned' = oearned)
+        \* a withdrawal takes earnings - fees already settled - and never the fees of requests still open
+        /\ (Ok(e, "Withdraw") => bal[REQ] - bal'[REQ] = SumEarned(earned) - SumEarned(earned'))
         \* exactly one settlement *happens*: when a block has ended, no request whose expiry block
         \* it was is still waiting for its settlement
         /\ (e.name = "EndBlock" => \A r \in actId' : r \in DOMAIN req' /\ req'[r].exp >= height')
